@@ -9,14 +9,14 @@
 #include <string.h>
 
 void *memrchr(const void *s, int c, size_t n) {
-	const unsigned char *src = (const unsigned char *) s + n - 1;
+	const unsigned char *src = (const unsigned char *) s + n;
 	unsigned char d = c;
 
-	do {
-		if (*src == d) {
+	while (src != (const unsigned char *) s) {
+		if (*--src == d) {
 			return (void *) src;
 		}
-	} while (src-- != s);
+	}
 
 	return NULL;
 }
